@@ -42,6 +42,7 @@ class B:
         self.prog = []
         self.n = 0
         self.members = {}  # bundle var -> list of member types
+        self.member_inputs = {}  # bundle var -> names of the inputs that ARE members of it
 
     def inp(self, t=None, val=None, small=True):
         name = "m%d" % self.n
@@ -71,6 +72,7 @@ class B:
             nm, t = self.inp()
             elems.append(["v", nm])
             types.append(t)
+            self.member_inputs.setdefault(name, []).append(nm)
         for _ in range(k_comp):
             nm, _t = self.inp()
             t = self.types.fresh()
@@ -83,6 +85,12 @@ class B:
 
     def scalar(self, in_set_of=None):
         """A scalar input; optionally typed like a member of bundle `in_set_of`."""
+        if in_set_of and in_set_of.startswith("member:"):
+            # the scalar IS one of the bundle's own member sources (`Bundle b = { s, t }; b * s`)
+            cands = self.member_inputs.get(in_set_of[7:]) or []
+            if cands:
+                return self.rng.choice(cands), None
+            in_set_of = in_set_of[7:]
         if in_set_of and self.members.get(in_set_of):
             t = self.rng.choice(self.members[in_set_of])
             return self.inp(t=t)
@@ -104,7 +112,7 @@ def s_arith(rng, nval):
     b = B(rng)
     b.literal("r")
     op = rng.choice(ARITH_OPS)
-    mode = rng.choice(["const", "sig_out", "sig_in"])
+    mode = rng.choice(["const", "sig_out", "sig_in", "sig_member"])
     if op in ("<<", ">>"):
         sc = ["n", rng.randint(0, 31)]
         mode = "const"
@@ -114,7 +122,7 @@ def s_arith(rng, nval):
     elif mode == "const":
         sc = ["n", rng.choice([0, 1, -1, 2, 3, -3, 10, 255, rng.randint(-1000, 1000)])]
     else:
-        nm, _t = b.scalar("r" if mode == "sig_in" else None)
+        nm, _t = b.scalar({"sig_in": "r", "sig_member": "member:r"}.get(mode))
         sc = ["v", nm]
     b.prog.append(["bun", "x", ["bb", op, ["v", "r"], sc]])
     return _mk(b.prog, "each_arith_" + mode, rng, nval)
@@ -124,11 +132,11 @@ def s_filter(rng, nval):
     b = B(rng)
     b.literal("r")
     op = rng.choice(CMP_OPS)
-    mode = rng.choice(["const", "sig_out", "sig_in"])
+    mode = rng.choice(["const", "sig_out", "sig_in", "sig_member"])
     if mode == "const":
         sc = ["n", rng.choice([0, 1, -1, 2, 5, 10, -5])]
     else:
-        nm, _t = b.scalar("r" if mode == "sig_in" else None)
+        nm, _t = b.scalar({"sig_in": "r", "sig_member": "member:r"}.get(mode))
         sc = ["v", nm]
     out = "copy" if rng.random() < 0.6 else ["n", rng.choice([1, 2, -1, 7])]
     b.prog.append(["bun", "x", ["bf", op, ["v", "r"], sc, out]])
@@ -139,7 +147,7 @@ def s_gate(rng, nval):
     b = B(rng)
     b.literal("r")
     inside = rng.random() < 0.4
-    nm, _t = b.scalar("r" if inside else None)
+    nm, _t = b.scalar(rng.choice(["r", "member:r"]) if inside else None)
     thr = rng.randint(-3, 8)
     b.prog.append(["bun", "x", ["bg", ["c", rng.choice(CMP_OPS), ["v", nm], ["n", thr]], ["v", "r"]]])
     return _mk(b.prog, "gating_cond_%s" % ("inside" if inside else "outside"), rng, nval,
@@ -151,7 +159,7 @@ def s_anyall(rng, nval):
     b.literal("r", k_const=rng.randint(0, 2), k_in=rng.randint(1, 3), k_comp=0)
     thr = None
     if rng.random() < 0.5:
-        thr, _t = b.scalar("r" if rng.random() < 0.3 else None)
+        thr, _t = b.scalar(rng.choice(["r", "member:r", None, None]))
     for i in range(rng.randint(1, 3)):
         k = rng.choice(["any", "all"])
         sc = ["v", thr] if thr and rng.random() < 0.7 else ["n", rng.randint(-3, 8)]
